@@ -7,6 +7,7 @@
 //! the TLA+ monitor (spec/GcMonitor.tla) through TLC trace validation.
 
 mod alloc;
+mod driver;
 mod heap;
 mod log;
 mod replay;
@@ -31,6 +32,7 @@ fn main() {
     }));
     match args.get(1).map(|s| s.as_str()) {
         Some("replay") => cmd_replay(&args),
+        Some("random") => cmd_random(&args),
         _ => {
             eprintln!("usage: gcv-harness replay ...");
             std::process::exit(2);
@@ -59,6 +61,8 @@ fn cmd_replay(args: &[String]) {
     let mut skipped = 0usize;
     let mut diverged = 0usize;
     let mut drift_count = 0usize;
+    let mut debt_drift_count = 0usize;
+    let mut debt_checked = 0usize;
     let mut drift_samples: Vec<serde_json::Value> = Vec::new();
     let mut ops_total = 0usize;
     for (idx, line) in f.lines().enumerate() {
@@ -87,6 +91,15 @@ fn cmd_replay(args: &[String]) {
                 if r.diverged {
                     diverged += 1;
                 }
+                if beh.get("pacing").is_some() {
+                    debt_checked += 1;
+                }
+                if let Some((k, m, re)) = r.debt_drift {
+                    debt_drift_count += 1;
+                    if drift_samples.len() < 10 {
+                        drift_samples.push(serde_json::json!({"beh": idx, "fields": ["debt"], "op_index": k, "model": m, "real": re, "ops": beh.get("ops")}));
+                    }
+                }
                 if !r.drift.is_empty() {
                     drift_count += 1;
                     if drift_samples.len() < 10 {
@@ -103,6 +116,29 @@ fn cmd_replay(args: &[String]) {
     let report = serde_json::json!({
         "behaviours": n, "runs": runs, "ops": ops_total, "events": log::count(),
         "skipped_ops": skipped, "diverged": diverged, "drift": drift_count, "drift_samples": drift_samples,
+        "debt_drift": debt_drift_count, "debt_checked": debt_checked,
     });
+    std::fs::write(&report_path, serde_json::to_string_pretty(&report).unwrap()).unwrap();
+}
+
+/// gcv-harness random --seed S --runs N [--first K] --steps M --trace <out.ndjson> --report <out.json>
+fn cmd_random(args: &[String]) {
+    let seed: u64 = arg(args, "--seed").map(|s| s.parse().unwrap()).unwrap_or(1);
+    let runs: usize = arg(args, "--runs").map(|s| s.parse().unwrap()).unwrap_or(10);
+    let first: usize = arg(args, "--first").map(|s| s.parse().unwrap()).unwrap_or(0);
+    let steps: usize = arg(args, "--steps").map(|s| s.parse().unwrap()).unwrap_or(200);
+    let max_objs: usize = arg(args, "--max-objs").map(|s| s.parse().unwrap()).unwrap_or(64);
+    let trace_path = arg(args, "--trace").expect("--trace");
+    let report_path = arg(args, "--report").expect("--report");
+    let mut out = std::io::BufWriter::new(std::fs::File::create(&trace_path).expect("create trace"));
+    let p = driver::Params { steps, max_objs };
+    for k in first..first + runs {
+        driver::run(seed, k, &p);
+        out.write_all(log::take().as_bytes()).unwrap();
+    }
+    ALLOC.reset();
+    out.flush().unwrap();
+    let report = serde_json::json!({"behaviours": runs, "runs": runs, "ops": runs * steps, "events": log::count(),
+        "skipped_ops": 0, "diverged": 0, "drift": 0, "drift_samples": [], "seed": seed, "first": first, "steps": steps});
     std::fs::write(&report_path, serde_json::to_string_pretty(&report).unwrap()).unwrap();
 }
